@@ -24,10 +24,10 @@ WATCHDOG = {"quick": 900, "thorough": 3400}
 R_ALL = ["R1-comment", "R2-blank-lines", "R3-indent", "R4-spacing", "R5-crlf", "R5-crlf-mixed", "R6-wrap", "R6-wrap-before-semicolon", "R7-comma",
          "R8-semicolons", "R9-end-added", "R9-end-removed", "R10-bom", "R11-multifile", "R12-file-vs-string"]
 REQUIRED = {**{r: 10 for r in R_ALL}, "isolated:R5-crlf": 2, "isolated:R10-bom": 2, "isolated:R8-semicolons": 2, "isolated:R6-wrap": 2, "isolated:R7-comma": 2,
-            "isolated:R1-comment": 2, "isolated:R11-multifile": 2, "isolated:R9-end-added": 2,
+            "isolated:R1-comment": 2, "multifile-cut-between-two-lines-of-a-decay-block": 5, "isolated:R11-multifile": 2, "isolated:R9-end-added": 2,
             "crlf+wrapped-params": 5, "bom-on-later-file": 3, "bom-on-first-file": 3, "multifile-end-in-every-file": 3, "multifile-no-trailing-newline": 3, "multifile-end-line-variants": 5, "multifile-crlf-end-line": 3,
             "text-closes-with-word-ending-in:n": 3, "text-closes-with-word-ending-in:d": 2, "text-closes-with-word-ending-in:E": 2, "string-ends-in-a-comment-without-newline": 5, "single-file-no-trailing-newline": 5, "single-file-larger-than-a-megabyte": 1, "variant-parsed-twice": 20, "master-file-variant": 2, "corpus-base": 20, "generated-base": 20, "snapshot-with-chains": 20}
-ASSUMPTIONS = ["parameter-list wrapping only on non-empty lists; file splits only between top-level statements; string inputs end with a newline",
+ASSUMPTIONS = ["parameter-list wrapping only on non-empty lists; file splits at line ends between statements or between the lines of a Decay block (never inside a parameter list); string inputs end with a newline",
                "warnings are recorded, not compared; absent parameter list '' == []"]
 DEFAULT_CFG = None
 PART_NAMES = ["generic.dec", "custom.dec", "part10.dec", "part2.dec", "Zfirst.dec", "a_last.dec", "m.dec", "B.dec", "part1.dec", "0.dec", "_x.dec", "k.dec"]
@@ -148,10 +148,16 @@ def make_variant(ctx, text, items, um, force=None):
     # multi-file: split the *rewritten* text at top-level statement boundaries
     its = layout.segments(new, L.published_models(), um)
     bounds = layout.top_level_boundaries(its)
+    inside = layout.decay_line_boundaries(its) if (force is None and rng.random() < 0.35) else []
+    if inside:
+        # the statement says "split over several files", not "split between blocks": a quota of cuts falls between two lines of a Decay block
+        bounds = sorted(set(bounds) | set(rng.sample(inside, min(len(inside), 3))))
     if len(bounds) < 1:
         return {"mode": "files", "files": [new], "bom": [False]}, applied
     k = min(rng.choice([2, 3, 4]), len(bounds) + 1)
     cuts = sorted(rng.sample(bounds, k - 1))
+    if set(cuts) & set(inside):
+        ctx.hit("multifile-cut-between-two-lines-of-a-decay-block")
     parts = []
     prev = 0
     for c in [*cuts, None]:
